@@ -270,20 +270,23 @@ def sanitize(ctx, hists):
     or call strlen(NULL): such ops are outside the contract and must not be run against the real library (undefined
     behaviour, not a refusal).  Replace them by a neutral op until no history crashes in the model."""
     hists = [(c, list(ops)) for c, ops in hists]
-    for _ in range(40):
-        res = model_only(ctx, hists)
-        changed = False
-        for (c, ops), rows in zip(hists, res):
+    pending = list(range(len(hists)))            # only histories changed in the previous round are run again
+    for _ in range(200):
+        if not pending:
+            return hists, None
+        res = model_only(ctx, [hists[j] for j in pending])
+        again = []
+        for j, rows in zip(pending, res):
+            c, ops = hists[j]
             for i, (m, s) in enumerate(rows):
                 if m.startswith('CRASH') or m.startswith('FUEL'):
                     k = ops[i].split()[0]
                     if m.startswith('FUEL') or k not in NEUTRAL:
                         return hists, 'model returned %s on `%s` (history: %s)' % (m, ops[i], ' ; '.join(ops[:i + 1][-15:]))
                     ops[i] = NEUTRAL[k]
-                    changed = True
+                    again.append(j)
                     break
-        if not changed:
-            return hists, None
+        pending = again
     return hists, 'sanitize did not converge'
 
 
@@ -398,6 +401,10 @@ def evaluate(ctx, exe, hists, label):
             if sig is not None:
                 sig['container'] = cont
                 small = shrink(ctx, exe, cont, ops[:i + 1], dict((k, v) for k, v in sig.items() if k != 'container'))
+                if small and small != ops[:i + 1]:          # lines of the shrunk history's last op
+                    rr, _ = run_all(ctx, exe, [(cont, small)])
+                    if rr and rr[0]:
+                        a, m, s = rr[0][-1]
                 ctx.report('impl-vs-spec', sig, '%s: %s %s' % (cont, sig['op'], sig['observed']),
                            {'ops': ['new ' + cont] + small, 'failing_op': small[-1] if small else ops[i], 'impl': a[:600], 'spec': s[:600], 'model': m[:600]})
                 break
@@ -454,13 +461,13 @@ def run(ctx, replay=None):
     ctx.cov['sweep_histories'] = len(sw) + len(sh)
     # 2. random histories
     hs = []
-    for i in range(120 if quick else 1200):
+    for i in range(120 if quick else 4000):
         mix = ['edit', 'walk', 'limit'][i % 3]
         hs.append(('list', gen_list_history(rng, rng.choice([60, 200, 400]), mix)))
-    for i in range(60 if quick else 600):
+    for i in range(60 if quick else 2000):
         c = ['queue', 'stack', 'grow'][i % 3]
         hs.append((c, gen_wrap_history(rng, rng.choice([40, 150, 300]), c)))
-    hs += directed_wrap(rng, 10 if quick else 100)
+    hs += directed_wrap(rng, 10 if quick else 300)
     # a long one (nearest-end walk over hundreds of nodes)
     for i in range(1 if quick else 6):
         n = 300 if quick else 1500
